@@ -90,12 +90,13 @@ func writeNotModified(w http.ResponseWriter) {
 // It interprets an empty etag as a non-existent object.
 func checkPreconditions(w http.ResponseWriter, r *http.Request, etag string) (done bool) {
 	// RFC 7232 section 6.
-	im := r.Header.Get("If-Match")
+	// a list may be split over several header lines (RFC 7230 3.2.2)
+	im := strings.Join(r.Header.Values("If-Match"), ", ")
 	if im != "" && !etagMatch(etag, im) {
 		w.WriteHeader(http.StatusPreconditionFailed)
 		return true
 	}
-	inm := r.Header.Get("If-None-Match")
+	inm := strings.Join(r.Header.Values("If-None-Match"), ", ")
 	if inm != "" && etagMatch(etag, inm) {
 		if r.Method == "GET" || r.Method == "HEAD" {
 			writeNotModified(w)
